@@ -189,6 +189,42 @@ pub fn run_case(tape: &mut Tape, _tier: Tier, _p: &CaseParams) -> CaseOutcome {
     crate::checks::worlds::add_remote_lockfile(tape, &mut w);
     w
   };
+  // sometimes one remote module is served as UTF-16 with a charset header
+  if tape.draw(Stream::World, 6) == 5 {
+    let cands: Vec<String> = world
+      .remote
+      .iter()
+      .filter(|(u, e)| {
+        u.starts_with("http")
+          && !u.starts_with(REGISTRY)
+          && u.ends_with(".ts")
+          && matches!(e, Entry::Module { final_url: None, .. })
+          && !world.lockfile.remote.contains_key(*u)
+      })
+      .map(|(u, _)| u.clone())
+      .collect();
+    if let Some(u) = cands.first() {
+      if let Some(Entry::Module { bytes, .. }) = world.remote.get(u).cloned() {
+        if let Ok(text) = String::from_utf8(bytes) {
+          let mut b = vec![];
+          for unit in text.trim_start_matches('\u{feff}').encode_utf16() {
+            b.extend_from_slice(&unit.to_le_bytes());
+          }
+          world.remote.insert(
+            u.clone(),
+            Entry::Module {
+              bytes: b,
+              headers: vec![(
+                "content-type".into(),
+                "application/typescript; charset=utf-16le".into(),
+              )],
+              final_url: None,
+            },
+          );
+        }
+      }
+    }
+  }
   tamper(tape, &mut world);
   let mut sem = SemOpts::draw(tape);
   sem.with_locker = true;
@@ -492,6 +528,7 @@ pub fn run_case(tape: &mut Tape, _tier: Tier, _p: &CaseParams) -> CaseOutcome {
         && l.final_url.as_deref() == Some(u.as_str())
         && l.served.as_ref().is_some_and(|b| {
           String::from_utf8_lossy(b).trim_start_matches('\u{feff}') == text
+            || b.contains(&0) // transcoded content: C20 checks the decoding
         })
     });
     if !served_ok && !text.is_empty() {
@@ -586,7 +623,18 @@ pub fn run_case(tape: &mut Tape, _tier: Tier, _p: &CaseParams) -> CaseOutcome {
           "new-checksums-recorded",
           format!(
             "recorded-checksum-is-not-of-the-served-bytes{}",
-            if bom { ":utf8-bom" } else { "" }
+            if bom {
+              ":utf8-bom"
+            } else if r1.loads.iter().any(|l| {
+              l.final_url.as_deref() == Some(u.as_str())
+                && l.served.as_ref().is_some_and(|b| {
+                  std::str::from_utf8(b).is_err() || b.contains(&0)
+                })
+            }) {
+              ":transcoded-content"
+            } else {
+              ""
+            }
           ),
           format!(
             "set_remote_checksum({}, {}) but the bytes served for it have checksum(s) {:?}",
